@@ -325,7 +325,7 @@ def text_formats(ctx):
         return isinstance(t, App) and t.op == "call" and isinstance(t.args[0], Ref) and getattr(t.args[0].obj, "name", None) == name
 
     # ---- D2c: dispatch = getattr(self, TABLE[format.lower()]); AUTO -> suffix without the dot; no file -> stdout
-    R.rule("C03-D2c format dispatch", 3, "dispatch looks the lower-cased format up in its own table")
+    R.rule("C03-D2c format dispatch", 4, "dispatch looks the lower-cased format up in its own table")
     for q, table, par in (("InputOutputMixin.get_serializer", ser, "output_type"), ("InputOutputMixin.get_deserializer", des, "input_type")):
         g = repo.func(IO, q)
         rets = [o for o in ev.outcomes(g) if o.kind == "return"]
@@ -338,21 +338,31 @@ def text_formats(ctx):
     ok = False
     found = ""
     if sel:
+        from sa.teval import teval as _teval, Unknown as _Unknown
         fmt = sel[0].args[-1]
         found = repr(fmt)[:300]
-        table_ = []
-        for g_, t in cases(fmt):
-            table_.append(t)
-        suffix_ok = any(isinstance(t, App) and t.op == "slice" and isinstance(t.args[0], App) and t.args[0].op == "attr:suffix"
-                        and contains(t.args[0], lambda u: u == P("file_name")) and t.args[1:] == (Const(1), Const(None), Const(None)) for t in table_)
-        ok = suffix_ok and Const("STDOUT") in table_ and P("output_type") in table_
-        # no file name selects stdout whatever the format
-        for g_, t in cases(fmt):
-            for cond, val in g_.items():
-                if cond == App("is", (P("file_name"), Const(None))) and val is True and t != Const("STDOUT"):
-                    ok = False
+        # decision table over (format given, file given): the selected format is evaluated on the extracted term
+        ok = True
+        try:
+            for ot, fn, want_ in (("AUTO", "out/env.yaml", "yaml"), ("AUTO", "e.JSON", "JSON"), ("AUTO", "x.suit", "suit"), ("json", "x.yaml", "json"),
+                                  ("suit", "x.json", "suit"), ("AUTO", None, "STDOUT"), ("json", None, "STDOUT"), ("yaml", None, "STDOUT")):
+                got = _teval(fmt, {"param:output_type": ot, "param:file_name": fn})
+                if got != want_:
+                    ok, found = False, f"output_type={ot!r}, file_name={fn!r} -> format {got!r} (expected {want_!r})"
+                    break
+        except _Unknown as e_:
+            raise AnalysisError(f"{ctx.fq(dp)}: selected format not evaluable ({e_})")
     R.check("C03-D2c format dispatch", ok, "AUTO -> file suffix; no file -> stdout", mod=dp.module, node=dp.node, function=ctx.fq(dp),
             expected="suffix without the dot / 'STDOUT' / the format given", found=found or "serializer selection not recognised")
+    # ... and on every normal path the serializer selected is called with (file, the envelope description, the hierarchy flag)
+    used = True
+    for o in douts:
+        c_ = [c for c in calls_of(o.effects) if c.op == "call" and sel and c.args[0] == sel[0]]
+        if not (len(c_) == 1 and list(c_[0].args[1:]) == [P("file_name"), App("attr:_envelope", (P("self"),)), P("parse_hierarchy")]):
+            used = False
+    R.check("C03-D2c format dispatch", used and bool(douts), "the selected serializer receives the file, the description and the hierarchy flag on every normal path",
+            mod=dp.module, node=dp.node, function=ctx.fq(dp), expected="get_serializer(fmt)(file_name, self._envelope, parse_hierarchy)",
+            found="the serializer is not called with these arguments on some normal path")
 
     # ---- D2d: hierarchy expansion
     R.rule("C03-D2d hierarchy expansion", 6, "a dependency is replaced only by the parse of that same value; only under suit-integrated-dependencies; anchors precede aliases")
